@@ -75,6 +75,14 @@ def gen_case(rng, kind):
             sh = list(shape); sh[d] = rng.randint(1, 3)
             ts.append(gen_tensor(rng, sh, stream=stream).to_json())
         c.update({"ts": ts, "d": d, "neg": rng.random() < 0.25, "form": rng.choice(["varargs", "list"])})
+        if rng.random() < 0.15:
+            # operands of different precision: the first one float32 (small integers: exact), the others full-mantissa float64
+            sh0 = list(shape); sh0[d] = rng.randint(1, 3)
+            ts[0] = gen_tensor(rng, sh0, stream="int").to_json()
+            for k_ in range(1, len(ts)):
+                shk = list(PT.from_json(ts[k_]).shape)
+                ts[k_] = gen_tensor(rng, shk, stream="float").to_json()
+            c["f32_first"] = True; c["stream"] = "float"
     elif kind in ("flip", "cumsum"):
         shape = gen_shape(rng, N, 1, 4)
         c["t"] = gen_tensor(rng, shape, stream=stream).to_json()
@@ -169,6 +177,12 @@ def gen_case(rng, kind):
                 sh[d] = rng.randint(1, 2)
             ts.append(gen_tensor(rng, sh, rmax=2, stream=stream).to_json())
         c.update({"ts": ts, "fn": fn, "d": d, "gen": rng.random() < 0.4})
+        if fn in ("add", "cat") and rng.random() < 0.15:
+            sh0 = list(PT.from_json(ts[0]).shape)
+            ts[0] = gen_tensor(rng, sh0, rmax=2, stream="int").to_json()
+            for k_ in range(1, len(ts)):
+                ts[k_] = gen_tensor(rng, list(PT.from_json(ts[k_]).shape), rmax=2, stream="float").to_json()
+            c["f32_first"] = True; c["stream"] = "float"
     elif kind == "create":
         c.update(gen_create(rng, stream))
     else:
@@ -280,6 +294,11 @@ def tensor_verify(exp, rtol=1e-9, floor=0.0, made_in_default_dtype=False):
     return verify
 
 
+
+def _to_f32(t):
+    return tn.Tensor([c.float() for c in t.cores], Us=[None if U is None else U.float() for U in t.Us])
+
+
 def run_cat(ctx, case, J):
     ts = [PT.from_json(t) for t in case["ts"]]
     d, N = case["d"], ts[0].N
@@ -293,7 +312,11 @@ def run_cat(ctx, case, J):
 
     def thunk():
         tt = [t.to_tn() for t in ts]
+        if case.get("f32_first"):
+            tt[0] = _to_f32(tt[0])
         return tn.cat(*tt, dim=arg) if case["form"] == "varargs" else tn.cat(tt, dim=arg)
+    if case.get("f32_first"):
+        ctx.count("cat:first operand float32, others float64")
 
     kd = set(t.kinds()[d] for t in ts)
     feats = [("1 mode, CP core or Tucker factor", _special1(*ts)), ("1 mode", N == 1), ("negative dim", case["neg"]),
@@ -481,8 +504,13 @@ def run_reduce(ctx, case, J):
              {"op": "reduce", "function": fn, "operands": [t.describe() for t in ts], "generator": case["gen"]})
     count_formats(ctx, *ts); ctx.count("reduce:%s,n=%d" % (fn, len(ts)))
 
+    if case.get("f32_first"):
+        ctx.count("reduce:first operand float32, others float64")
+
     def thunk():
         tt = [t.to_tn() for t in ts]
+        if case.get("f32_first"):
+            tt[0] = _to_f32(tt[0])
         seq = (t_ for t_ in tt) if case["gen"] else tt
         if fn == "add":
             return tn.reduce(seq, operator.add)
